@@ -317,6 +317,62 @@ Theorem C09_delete_subject_and_entry_refuted :
 Proof. exact delete_subject_and_entry. Qed.
 Print Assumptions C09_delete_subject_and_entry_refuted.
 
+(* ---- persistence: index.json, AutoSaveIndex, SaveIndex, a new Store on the directory ---- *)
+
+(* loadIndex after saveIndex gives back the reference map (minus stale tag-set entries) *)
+Theorem C09_index_load_save :
+  forall ix e, refs_ok ix ->
+  (In e (load_form (save_form ix)) <-> In e ix /\ nonstale e = true).
+Proof. exact load_save_final. Qed.
+Print Assumptions C09_index_load_save.
+
+(* As long as AutoSaveIndex is never switched off, after every history of Push / Tag / Untag /
+   Delete / GC (complete or cancelled) / AutoGC / stray files / SaveIndex / reopen / foreign
+   index, index.json holds exactly what saveIndex writes for the current reference map: Delete
+   and GC never leave index.json behind the memory *)
+Theorem C09_index_json_current :
+  forall succ subject manifest, acyclic succ -> subject_listed succ subject ->
+  forall kl ops, Forall (fun o => o <> PAutoSave false) ops ->
+  let p := fold_left (fun p o => fst (pstep succ subject manifest cfg_fixed kl p o)) ops pinit in
+  (forall e, In e (disk p) <-> In e (save_form (idx (mem p)))) /\
+  refs_ok (idx (mem p)) /\ autosave p = true.
+Proof. exact index_json_current_final. Qed.
+Print Assumptions C09_index_json_current.
+
+(* the same as an invariant of one step (any state with a current index.json) *)
+Theorem C09_index_json_step :
+  forall succ subject manifest, acyclic succ -> subject_listed succ subject ->
+  forall kl p o, pstate_ok p -> o <> PAutoSave false ->
+  pstate_ok (fst (pstep succ subject manifest cfg_fixed kl p o)).
+Proof. exact index_json_step_final. Qed.
+Print Assumptions C09_index_json_step.
+
+(* with a current index.json a new Store on the directory is the OReopen of the theorems
+   (C09_gc_reopen, C09_histories): same storage, references, graph *)
+Theorem C09_reload_is_reopen :
+  forall succ subject manifest, acyclic succ -> subject_listed succ subject ->
+  forall kl p, pstate_ok p ->
+  let a := mem (fst (pstep succ subject manifest cfg_fixed kl p (PO OReopen))) in
+  let b := fst (step succ subject manifest cfg_fixed kl (mem p) OReopen) in
+  blobs a = blobs b /\ (forall e, In e (idx a) <-> In e (idx b)) /\
+  (forall x, In x (gnodes a) <-> In x (gnodes b)) /\
+  strays a = strays b /\ autogc a = autogc b.
+Proof. exact reload_is_reopen_final. Qed.
+Print Assumptions C09_reload_is_reopen.
+
+(* the hypothesis is needed: with AutoSaveIndex off and no SaveIndex a restart forgets the tag,
+   and the next GC sweeps the manifest (documented: "unsaved index will be lost"); SaveIndex
+   before the restart keeps both *)
+Theorem C09_unsaved_index_refuted :
+  let ops := [PO (OPush 0); PO (OPush 1); PO (OTag 1 0); PO OReopen; PO OGC] in
+  blobs (mem (prun_w (PAutoSave false :: ops))) = [] /\
+  lookup (RTag 0) (idx (mem (prun_w (PAutoSave false :: ops)))) = None /\
+  blobs (mem (prun_w ops)) = [1; 0] /\
+  lookup (RTag 0) (idx (mem (prun_w ops))) = Some 1 /\
+  blobs (mem (prun_w (PAutoSave false :: [PO (OPush 0); PO (OPush 1); PO (OTag 1 0); PSave; PO OReopen; PO OGC]))) = [1; 0].
+Proof. exact unsaved_index_lost. Qed.
+Print Assumptions C09_unsaved_index_refuted.
+
 (* ---- the hypotheses are satisfiable on non-trivial instances ---- *)
 Example C09_hyps_satisfiable : acyclic succ_w /\ subject_listed succ_w subject_w.
 Proof. exact hyps_satisfiable. Qed.
